@@ -96,7 +96,10 @@ def residue_ok(block, desc):
     if i < 0:
         return False
     res = block[:i] + ' ' + block[i + len(desc):]
-    return all(w in _CULL for w in re.findall(r'\w+', res.lower()))
+    if not all(w in _CULL for w in re.findall(r'\w+', res.lower())):
+        return False
+    # ... and, apart from those words, only separator characters.
+    return not re.sub(r'\w+', '', res).strip(_SEPCH)
 
 
 def walk_problem(rec):
